@@ -115,8 +115,11 @@ def capture_obligations(rep, res, entry, out, dom, trapz):
     want = {"filters": 1, "signals": 1, "domain": 1}
     rep.check("R-QTY", "bilinear: degree 1 in filters, signals and measure", None if deg is None else deg == want, where=where,
               construct="degree of calculate_capture", entry=entry, config=res.config, msg=f"computed degrees {deg}")
-    rep.check("R-QTY", "no numeric literal factor", not v.tag("litfactor"), where=where, construct="literal factor in calculate_capture",
-              entry=entry, config=res.config)
+    # a library integrator needs no literal factor next to it; a quadrature rule written out by hand carries its own literal weights
+    # (the 1/2 of the trapezoid rule) — whether they are the right ones is a statement about values: undecided, not a violation
+    lf = bool(v.tag("litfactor"))
+    rep.check("R-QTY", "no numeric literal factor", (not lf) if (res.events("integrate") or not lf) else None, where=where,
+              construct="literal factor in calculate_capture", entry=entry, config=res.config)
     R.rule_type_errors(rep, res, "SHAPE", "R-SHAPE", entry)
     R.rule_type_errors(rep, res, "QTY", "R-QTY", entry)
     R.rule_no_global_state(rep, res, entry)
